@@ -333,11 +333,19 @@ def rule_r3(prog, res) -> None:
                 key_extra="require-not-forwarded",
             )
             continue
-        # a forwarded is_compatible(..., require=require) call raises instead of returning False (checked on its own)
-        reach = pruned_reach(cfg, cfg.entry, {"require": True, "is_compatible()": True})
-        bad = [nd for nd in cfg.nodes if nd.id in reach and nd.kind == "stmt" and isinstance(nd.ast, ast.Return) and isinstance(nd.ast.value, ast.Constant) and nd.ast.value.value is False]
+        # a forwarded is_compatible(..., require=require) call raises instead of returning False (checked on its own);
+        # helpers of the module are looked through with require bound to True
+        from .. import symx
+
+        def forwarded_true(fi_, call, funcs):
+            if isinstance(call.func, ast.Attribute) and call.func.attr == "is_compatible":
+                return ast.Constant(value=True)
+            return None
+
+        paths = symx.explore(prog, m, env={"require": True}, inline=symx.inline_private_helpers(prog, public={"is_compatible"}), call_value=forwarded_true)
+        bad = [p for p in paths if p.outcome == "return" and isinstance(p.value, ast.Constant) and p.value.value is False]
         if bad:
-            res.violation("C17.R3", m, bad[0].ast, f"{ci.name}.is_compatible(require=True) can return False instead of raising: callers that rely on the exception combine incompatible containers", key_extra="require-returns-false")
+            res.violation("C17.R3", m, bad[0].node or m.node, f"{ci.name}.is_compatible(require=True) can return False instead of raising: callers that rely on the exception combine incompatible containers", key_extra="require-returns-false")
         else:
             res.ok("C17.R3", res.site(m), "with require=True no `return False` is reachable")
     if k < 4:
